@@ -21,8 +21,8 @@ NON_NUMERIC = ["title", "author", "a", "years", "x1"]
 REUSE_KEYS = ["a", "year", "title", "x1"]
 
 RULE = ("values = every string over the alphabet { } \" , = # \\ @ a space up to a length bound (superset of what the splitter "
-        "produces over that alphabet) plus non-negative Python ints (bools excluded); strip: each value as an entry field and as an "
-        "@string value, oracle 'outer pair' = first and last character of the whitespace-stripped value form {..} or \"..\" and it "
+        "produces over that alphabet); removal over str values only, non-negative Python ints (bools excluded) only through "
+        "AddEnclosing (intrule); strip: each value as an entry field and as an @string value, oracle 'outer pair' = first and last character of the whitespace-stripped value form {..} or \"..\" and it "
         "has >= 2 characters; reuse: for every value v_i the window (v_i, v_i+37, v_i+74, v_i+111) of the enumeration on 4 distinct keys (one numeric) + v_i as the @string, all 4 "
         "(default, enclose_integers) combinations with reuse on; reparse: values restricted as the quantifier says -- unescaped "
         "braces balanced (a delimiter immediately preceded by a backslash is escaped, DESIGN.md section 6), not ending in a "
@@ -30,9 +30,9 @@ RULE = ("values = every string over the alphabet { } \" , = # \\ @ a space up to
         "unescaped quote at brace depth 0 -- x both defaults; intrule: 8 numeric + 5 other keys x ASCII digit strings / ints / "
         "non-digit strings x all 8 AddEnclosing option combinations x (fresh block | after Remove), plus the @string value; "
         "non-trivial = the stripped value is non-empty (strip/reuse/reparse) resp. always (intrule); distinct = distinct spec")
-BOUND = {"quick": "strip: all 111111 strings of length <= 5 + 7 ints; reuse: all windows over length <= 4 x 4 options + 2000 random "
+BOUND = {"quick": "strip: all 111111 strings of length <= 5; reuse: all windows over length <= 4 x 4 options + 2000 random "
                   "length 5..9; reparse: all admissible values of length <= 5 x 2 defaults; intrule: full matrix",
-         "thorough": "strip: all 1111111 strings of length <= 6 + 7 ints; reuse: all windows over length <= 5 x 4 options + 20000 random; "
+         "thorough": "strip: all 1111111 strings of length <= 6; reuse: all windows over length <= 5 x 4 options + 20000 random; "
                      "reparse: all admissible values of length <= 6 x 2 defaults; intrule: full matrix"}
 
 
@@ -138,10 +138,8 @@ def check_strip(spec):
         try:
             out = RemoveEnclosingMiddleware().transform(lib)
         except Exception as e:
-            return {"what": f"RemoveEnclosingMiddleware raised on a {where} value without outer pair" if exp_kind is None
-                    else f"RemoveEnclosingMiddleware raised on a {where} value",
-                    "expected": short((exp_val, exp_kind)), "observed": f"{type(e).__name__}: {e}",
-                    "finding_key": "F6-int-strip-attributeerror" if (is_int(v) and isinstance(e, AttributeError)) else None}
+            return {"what": f"RemoveEnclosingMiddleware raised on a {where} value",
+                    "expected": short((exp_val, exp_kind)), "observed": f"{type(e).__name__}: {e}"}
         if len(out.blocks) != 1:
             return {"what": f"{where}: block count changed", "expected": 1, "observed": len(out.blocks)}
         b = out.blocks[0]
@@ -277,7 +275,6 @@ def all_strings(maxlen):
             yield "".join(t)
 
 
-INTS = [0, 1, 7, 12, 1990, 2024, 10 ** 12]
 INT_VALUES = ["0", "7", "12", "007", "1990", 0, 7, 1990, "", "a", "19a", "a1", "-5", "1.5", "1 2", "{1990}", '"1990"', "{}", "1990 # a"]
 OPTS = [(d, ei) for d in ("{", '"') for ei in (False, True)]
 
@@ -292,7 +289,7 @@ def generate(tier, rng):
     for after_remove in (False, True):
         for v in INT_VALUES:
             if after_remove and not isinstance(v, str):
-                continue                 # ints through Remove are covered by C10.strip
+                continue                 # removal is quantified over str values only
             for key in NUMERIC + NON_NUMERIC:
                 for default in ("{", '"'):
                     for reuse in (False, True):
@@ -300,8 +297,6 @@ def generate(tier, rng):
                             yield "C10.intrule", {"key": key, "value": v, "default": default, "reuse": reuse,
                                                   "enclose_integers": ei, "after_remove": after_remove}, True
     # (a) strip
-    for i in INTS:
-        yield "C10.strip", {"value": i}, True
     for v in all_strings(5 if quick else 6):
         yield "C10.strip", {"value": v}, bool(v.strip())
     # (b) reuse: sliding windows of 4 consecutive values
